@@ -61,6 +61,20 @@ def paths(fn, limit=4096):
     def calls_of(node):
         return [('call', callee_name(e), e) for e in walk(node) if e.get('kind') == 'CallExpr']
 
+    def ways(c, truth):
+        """the ways a condition can come out `truth`, each a list of atom texts (short-circuit order): a||b is true through a,
+        or through !a and b; it is false only through !a and !b"""
+        c0 = cfront.strip(c)
+        if c0.get('kind') == 'UnaryOperator' and c0.get('opcode') == '!':
+            return ways(c0['inner'][0], not truth)
+        if c0.get('kind') == 'BinaryOperator' and c0.get('opcode') in ('&&', '||'):
+            a, b = c0['inner']
+            conj = (c0['opcode'] == '&&') == truth
+            if conj:        # both operands must come out `truth`
+                return [x + y for x in ways(a, truth) for y in ways(b, truth)]
+            return ways(a, truth) + [x + y for x in ways(a, not truth) for y in ways(b, truth)]
+        return [[_txt(c0) if truth else _txt(normal.negate(c0))]]
+
     def seq(items, k):
         """continuation-passing enumeration; k(events) -> iterable of complete paths"""
         if not items:
@@ -79,11 +93,14 @@ def paths(fn, limit=4096):
         if kind == 'IfStmt':
             c = st['inner'][0]
             pre = calls_of(c)
-            branches = [(_txt(c), [st['inner'][1]])]
-            branches.append((_txt(normal.negate(c)), [st['inner'][2]] if len(st['inner']) > 2 and st['inner'][2].get('kind') else []))
-            for txt, blk in branches:
-                for p in seq(blk + rest, k):
-                    yield pre + [('cond', txt)] + p
+            then_blk = [st['inner'][1]]
+            else_blk = [st['inner'][2]] if len(st['inner']) > 2 and st['inner'][2].get('kind') else []
+            for atoms in ways(c, True):
+                for p in seq(then_blk + rest, k):
+                    yield pre + [('cond', a) for a in atoms] + p
+            for atoms in ways(c, False):
+                for p in seq(else_blk + rest, k):
+                    yield pre + [('cond', a) for a in atoms] + p
             return
         ev = calls_of(st)
         for p in seq(rest, k):
